@@ -39,6 +39,7 @@ Lemma legal_longjmp_jpc : forall st s k sl r arg x, Inv st s -> rstep st (Plt KL
   assoc arg (jpc s) = Some PRET.
 Proof.
   intros st s k sl r arg x H Hr. cbn [rstep] in Hr.
+  destruct (below_top (frames st) sl && valid_ra r && exc st); [discriminate|].
   destruct (below_top (frames st) sl && valid_ra r && negb (exc st)); [|discriminate].
   destruct (flight st); [discriminate|].
   destruct (assoc arg (jbt st)) as [[saved rsj]|] eqn:Ea; [|discriminate].
